@@ -186,7 +186,9 @@ func c33Run(raw json.RawMessage) (Case, error) {
 		default:
 			return fmt.Errorf("bad op %q", o.Op)
 		}
-		if o.Op != "reg" && o.Op != "get" && o.Op != "hist" && o.Op != "store" {
+		// the concurrent block runs apply from several goroutines: the bookkeeping map is only
+		// written on the sequential (recording) path
+		if record && o.Op != "reg" && o.Op != "get" && o.Op != "hist" && o.Op != "store" {
 			used[o.Name] = true
 		}
 		if record {
@@ -260,6 +262,9 @@ func c33Run(raw json.RawMessage) (Case, error) {
 					ops = append(ops, cq.App("MDown", cq.N(uint64(mo.Name))))
 				case "hist":
 					ops = append(ops, cq.App("MHist", cq.N(uint64(mo.Name))))
+				}
+				if mo.Op != "reg" && mo.Op != "hist" {
+					used[mo.Name] = true
 				}
 			}
 		}
